@@ -4,7 +4,7 @@ CHECK = dict(
     property='C19', level='exploration',
     families=[('peers', 1.0)],
     budget=dict(quick=55, thorough=900), max_runs=dict(quick=50_000, thorough=2_000_000),
-    rule=('servers that answer one request of the verification handshake with a JSON-RPC error or an invalid response, servers that turn bad later, lists sampled seconds apart, no listed peer may carry the server\'s own bad flag; each evaluation = one simulated run of the real server with PEER_DISCOVERY=on and a population of 6-24 '
+    rule=('servers that never answer one request of the handshake (also withholding the header while on another fork) and servers that answer every request after 18-28 s; servers that answer one request of the verification handshake with a JSON-RPC error or an invalid response, servers that turn bad later, lists sampled seconds apart, no listed peer may carry the server\'s own bad flag; each evaluation = one simulated run of the real server with PEER_DISCOVERY=on and a population of 6-24 '
           'model remote servers on the simulated network (correct, wrong genesis, wrong height, wrong header, not '
           'in own host list, garbage replies, bad version reply, refusing, hanging; IP-literal / host-name / onion '
           'hosts; public addresses sharing and not sharing /16 and /56 buckets, private, loopback, link-local, '
